@@ -13,16 +13,36 @@ use std::io::Read;
 #[derive(Clone, Debug)]
 pub struct AsciiDecorator {
     pub s: CustomDeco,
+    /// nesting level: 0 for the decorator handed to the library, one more
+    /// for every `make_subblock_decorator`
+    pub depth: usize,
+    /// links and images seen so far by this instance
+    pub seen: usize,
+}
+
+impl AsciiDecorator {
+    fn level(&self) -> &str {
+        if self.s.per_level.is_empty() {
+            ""
+        } else {
+            &self.s.per_level[self.depth % self.s.per_level.len()]
+        }
+    }
 }
 
 impl TextDecorator for AsciiDecorator {
     type Annotation = u8;
 
     fn decorate_link_start(&mut self, _url: &str) -> (String, u8) {
+        self.seen += 1;
         (self.s.link_start.clone(), 1)
     }
     fn decorate_link_end(&mut self) -> String {
-        self.s.link_end.clone()
+        if self.s.counting {
+            format!("{}{}", self.s.link_end, self.seen)
+        } else {
+            self.s.link_end.clone()
+        }
     }
     fn decorate_em_start(&self) -> (String, u8) {
         (self.s.em.0.clone(), 2)
@@ -55,27 +75,35 @@ impl TextDecorator for AsciiDecorator {
         7
     }
     fn decorate_image(&mut self, _src: &str, title: &str) -> (String, u8) {
-        (format!("{}{}{}", self.s.img.0, title, self.s.img.1), 8)
+        self.seen += 1;
+        if self.s.counting {
+            (format!("{}{}{}{}", self.s.img.0, title, self.s.img.1, self.seen), 8)
+        } else {
+            (format!("{}{}{}", self.s.img.0, title, self.s.img.1), 8)
+        }
     }
     fn header_prefix(&self, level: usize) -> String {
-        self.s.header.repeat(level.min(8))
+        format!("{}{}", self.s.header.repeat(level.min(8)), self.level())
     }
     fn quote_prefix(&self) -> String {
-        self.s.quote.clone()
+        format!("{}{}", self.s.quote, self.level())
     }
     fn unordered_item_prefix(&self) -> String {
-        self.s.ul.clone()
+        format!("{}{}", self.s.ul, self.level())
     }
     fn ordered_item_prefix(&self, i: i64) -> String {
         if self.s.ol_labels.is_empty() {
-            format!("{}{}", i, self.s.ol_suffix)
+            format!("{}{}{}", i, self.s.ol_suffix, self.level())
         } else {
             let n = self.s.ol_labels.len() as i64;
-            format!("{}{}", self.s.ol_labels[i.rem_euclid(n) as usize], self.s.ol_suffix)
+            format!("{}{}{}", self.s.ol_labels[i.rem_euclid(n) as usize], self.s.ol_suffix, self.level())
         }
     }
     fn make_subblock_decorator(&self) -> Self {
-        self.clone()
+        // a decorator may carry per-level state: that is what this method is for
+        let mut d = self.clone();
+        d.depth += 1;
+        d
     }
     fn decorate_superscript_start(&self) -> (String, u8) {
         (self.s.sup.0.clone(), 9)
@@ -95,49 +123,102 @@ pub enum Built<D: TextDecorator> {
 }
 
 fn apply<D: TextDecorator>(mut c: Config<D>, spec: &ConfigSpec) -> Built<D> {
-    if spec.do_decorate {
-        c = c.do_decorate();
+    // The builder calls, as numbered steps; step 11 + i adds the i-th sheet.
+    // Canonical order unless the scenario carries a permutation seed, in which
+    // case the steps are shuffled and a few are made twice ("every
+    // configuration reachable through the public builder" includes every order
+    // of calls).  Sheets keep their relative order: it is significant in CSS.
+    let mut steps: Vec<usize> = (0..11).collect();
+    if spec.builder_order != 0 {
+        let mut rng = crate::prng::Rng::new(spec.builder_order);
+        for i in (1..steps.len()).rev() {
+            let j = rng.usize_below(i + 1);
+            steps.swap(i, j);
+        }
+        for _ in 0..rng.urange(0, 3) {
+            let dup = steps[rng.usize_below(steps.len())];
+            let at = rng.usize_below(steps.len() + 1);
+            steps.insert(at, dup);
+        }
+        // interleave the sheets at random positions, in their own order
+        let mut pos: Vec<usize> = (0..spec.css.len()).map(|_| rng.usize_below(steps.len() + 1)).collect();
+        pos.sort();
+        for (i, p) in pos.into_iter().enumerate().rev() {
+            steps.insert(p, 11 + i);
+        }
+    } else {
+        steps.extend((0..spec.css.len()).map(|i| 11 + i));
     }
-    if let Some(b) = spec.link_footnotes {
-        c = c.link_footnotes(b);
-    }
-    if spec.allow_width_overflow {
-        c = c.allow_width_overflow();
-    }
-    if let Some(k) = spec.min_wrap_width {
-        c = c.min_wrap_width(k);
-    }
-    if let Some(k) = spec.max_wrap_width {
-        c = c.max_wrap_width(k);
-    }
-    if spec.pad_block_width {
-        c = c.pad_block_width();
-    }
-    if let Some(b) = spec.raw_mode {
-        c = c.raw_mode(b);
-    }
-    if spec.no_table_borders {
-        c = c.no_table_borders();
-    }
-    if spec.no_link_wrapping {
-        c = c.no_link_wrapping();
-    }
-    if let Some(b) = spec.unicode_strikeout {
-        c = c.unicode_strikeout(b);
-    }
-    if spec.use_doc_css {
-        c = c.use_doc_css();
-    }
-    for css in &spec.css {
-        let r = if css.agent {
-            c.add_agent_css(&css.text)
-        } else {
-            c.add_css(&css.text)
-        };
-        match r {
-            Ok(next) => c = next,
-            Err(Error::CssParseError) => return Built::CssRejected,
-            Err(e) => return Built::Other(format!("{:?}", e)),
+    for step in steps {
+        match step {
+            0 => {
+                if spec.do_decorate {
+                    c = c.do_decorate();
+                }
+            }
+            1 => {
+                if let Some(b) = spec.link_footnotes {
+                    c = c.link_footnotes(b);
+                }
+            }
+            2 => {
+                if spec.allow_width_overflow {
+                    c = c.allow_width_overflow();
+                }
+            }
+            3 => {
+                if let Some(k) = spec.min_wrap_width {
+                    c = c.min_wrap_width(k);
+                }
+            }
+            4 => {
+                if let Some(k) = spec.max_wrap_width {
+                    c = c.max_wrap_width(k);
+                }
+            }
+            5 => {
+                if spec.pad_block_width {
+                    c = c.pad_block_width();
+                }
+            }
+            6 => {
+                if let Some(b) = spec.raw_mode {
+                    c = c.raw_mode(b);
+                }
+            }
+            7 => {
+                if spec.no_table_borders {
+                    c = c.no_table_borders();
+                }
+            }
+            8 => {
+                if spec.no_link_wrapping {
+                    c = c.no_link_wrapping();
+                }
+            }
+            9 => {
+                if let Some(b) = spec.unicode_strikeout {
+                    c = c.unicode_strikeout(b);
+                }
+            }
+            10 => {
+                if spec.use_doc_css {
+                    c = c.use_doc_css();
+                }
+            }
+            n => {
+                let css = &spec.css[n - 11];
+                let r = if css.agent {
+                    c.add_agent_css(&css.text)
+                } else {
+                    c.add_css(&css.text)
+                };
+                match r {
+                    Ok(next) => c = next,
+                    Err(Error::CssParseError) => return Built::CssRejected,
+                    Err(e) => return Built::Other(format!("{:?}", e)),
+                }
+            }
         }
     }
     Built::Ok(c)
@@ -213,7 +294,7 @@ impl SimDeco for AsciiDecorator {
     }
     fn fresh(spec: &ConfigSpec) -> Self {
         match &spec.decorator {
-            Deco::Custom { strings } => AsciiDecorator { s: strings.clone() },
+            Deco::Custom { strings } => AsciiDecorator { s: strings.clone(), depth: 0, seen: 0 },
             _ => unreachable!(),
         }
     }
